@@ -2,6 +2,7 @@ package props
 
 import (
 	"bytes"
+	"encoding/json"
 	"fmt"
 	"reflect"
 	"strings"
@@ -29,6 +30,43 @@ type PtrStruct struct {
 type GobOnly struct {
 	M map[string]int
 	L []string
+}
+
+// Codec3 is a column type with a custom codec: a batch is sent as one JSON array, and the decoder
+// insists on receiving exactly as many values as the batch has rows.
+type Codec3 struct{ A, B, C int }
+
+func init() {
+	key := frame.FreshKey()
+	frame.RegisterOps(func(slice []Codec3) frame.Ops {
+		return frame.Ops{
+			Encode: func(e frame.Encoder, i, j int) error {
+				p, err := json.Marshal(slice[i:j])
+				if err != nil {
+					return err
+				}
+				return e.Encode(p)
+			},
+			Decode: func(d frame.Decoder, i, j int) error {
+				var p *[]byte
+				if d.State(key, &p) {
+					*p = []byte{}
+				}
+				if err := d.Decode(p); err != nil {
+					return err
+				}
+				var x []Codec3
+				if err := json.Unmarshal(*p, &x); err != nil {
+					return err
+				}
+				if len(x) != j-i {
+					return fmt.Errorf("verif codec: decoded %d values for %d rows", len(x), j-i)
+				}
+				copy(slice[i:j], x)
+				return nil
+			},
+		}
+	})
 }
 
 // I32x3 is a 12-byte pointer-free struct.
@@ -166,6 +204,11 @@ func init() {
 			}
 			return a
 		}})
+	// a column type with a custom codec (frame.RegisterOps with Encode/Decode), see init below
+	regCol(&colType{Name: "codec3", Typ: reflect.TypeOf(Codec3{}),
+		Gen: func(r *vf.Rand) any {
+			return Codec3{A: 1 + r.Intn(1000), B: -1 - r.Intn(1000), C: 1 + int(r.Uint64()>>40)}
+		}})
 	regCol(&colType{Name: "ints", Typ: reflect.TypeOf([]int(nil)),
 		Gen: func(r *vf.Rand) any {
 			if r.Chance(0.2) {
@@ -252,6 +295,7 @@ var frameSchemas = []schema{
 	{[]string{"bool", "uint16", "uint32", "int8"}, 4},
 	{[]string{"int", "tri8", "i32x3"}, 1},
 	{[]string{"uint8", "i16x5"}, 1},
+	{[]string{"int", "codec3", "string"}, 1},
 }
 
 type row []any
